@@ -160,6 +160,8 @@ def run_case(case: Case, name: str):
                     case.regime("flat regime")
             case.regime("observed NaN on a predicted-able row", ts[i] == "val" and os_[i] == "nan")
             case.regime("observed present", os_[i] == "val")
+        F.validate_frame(case, p, b, (lambda st: lambda env: F.model(lay, tz=str(idx.tz))._predict(F.float_frame(idx, env, st[0], st[1])))((ts, os_)),
+                         COLS, stride=1 if case.tier == "thorough" else 4)
         if len(case.rep["samples"]) < 2 and p.model is not None:
             case.sample(dict(temperature_states=ts, observed_states=os_, witness=model_env(p.model, case.inputs)))
 
